@@ -207,7 +207,7 @@ def run(tier, seed, replay=None):
         return any(f.kind == "impl-vs-spec" for f in probe.failures)
     run.shrinker = still_fails
     from harness.common import corpus_cases
-    cases = [replay["case"]] if replay else corpus_cases("C16") + \
+    cases = [replay["case"]] if replay else corpus_cases("C16") + rc.empty_run_cases(True)[::2] + rc.empty_run_cases(False)[1::4] + \
         [rc.make_case(run.rng, tier, damage=(i % 5 != 0)) for i in range(200 if tier == "quick" else 1500)] + \
         [zero_case(run.rng, tier) for _ in range(40 if tier == "quick" else 300)]
     if not replay:
